@@ -72,6 +72,7 @@ def acceptedRaise (j : Journal) : Bool :=
 def monitorsWant (c : Spec.Ctx) (obsDelta : Int) (j : Journal) (fatalHere : Bool) : List String :=
   let unt : Int := Spec.untaintedCount c
   let want : Int := if unt < c.st.minEff then c.st.minEff - unt else obsDelta
+  (if fatalHere then [] else (Spec.decisionBad c obsDelta).flatMap (fun t => ["C06|" ++ t, "C13|" ++ t])) ++
   if c.dry then [] else
   (if Spec.C07.orderHolds c j then [] else ["C07|order"]) ++
   (if Spec.C07.reuseHolds c j then [] else ["C07|reuse"]) ++
@@ -144,7 +145,8 @@ def handleScan (ds : DState) (sc : ScanCase) : DState × Json :=
           | some ctx =>
             let fatalHere := sc.obs.outcome != "ok" && (sc.obs.recs.getLast?.map (·.name)) == some ob.name
             let m05 := if fatalHere || seen'.lookup ob.name == some (-1, -1) then [] else
-              (Spec.C05.badFromZero ctx (seen'.lookup ob.name) ob.delta).map (fun t => "C05|" ++ t)
+              (Spec.C05.badFromZero ctx (seen'.lookup ob.name) ob.delta).flatMap (fun t =>
+                ["C05|" ++ t] ++ (if ctx.view.nodes.any (·.unschedulable) then ["C09|cordoned-node-in-view:" ++ t] else []))
             (monitors ctx ob.j (fatalHere && sc.obs.outcome == "fatal:not-in-group") ++ monitorsWant ctx ob.delta ob.j fatalHere ++ m05).map (fun m => match m.splitOn "|" with
             | [p, d] => p ++ ":" ++ ob.name ++ ":" ++ d
             | _ => m ++ ":" ++ ob.name))
@@ -173,7 +175,15 @@ def handleScan (ds : DState) (sc : ScanCase) : DState × Json :=
       if sc.obs.outcome.startsWith "panic:" then ["C20:panic:" ++ sc.obs.outcome]
       else if sc.obs.outcome == "fatal:rebuild-failed" || sc.obs.outcome == "fatal:group-missing" then ["C20:fatal:rebuild-failed"]
       else if sc.obs.outcome == "fatal:fleet-strikes" then ["C20:fatal:fleet-strikes"]
+      else if sc.obs.outcome.startsWith "fatal:unexpected" then ["C20:fatal:undocumented-stop:" ++ sc.obs.outcome]
       else []
+    -- C12: a failure that is not one of the documented stop conditions must not keep later groups from being processed
+    let mon12 : List String :=
+      if sc.obs.outcome.startsWith "fatal:unexpected" then
+        ["C12:" ++ ((sc.obs.recs.getLast?.map (·.name)).getD "?") ++ ":groups-after-it-not-processed:" ++
+          toString (ds.ctl.cfgs.length - sc.obs.recs.length) ++ ":" ++ sc.obs.outcome]
+      else []
+    let mons := mons ++ mon12
     let mons := mons ++ mon20
     let armed' : List (String × Int) := sc.obs.recs.foldl (fun acc ob =>
       if acceptedRaise ob.j then (ob.name, sc.nowReal) :: acc.filter (fun p => p.1 != ob.name) else acc) ds.armed
